@@ -104,6 +104,8 @@ def run(ctx):
             facts[name] = (len(must), {k: len(v) for k, v in reads.items()})
             short = name.replace('embedded_pairing_core_arch_', '')
             e0 = ext[0] if ext else None
+            flow = [p_ for p_ in R.problems if 'conditional jump' in p_ or 'backward branch' in p_ or 'indirect' in p_]
+            ctx.ob('R-SIBLING/asm', not flow, 'asm|deadarm|' + short, name, '%s: %s' % (name, '; '.join(flow[:2])), cfg=ca)
             ctx.ob('R-SIBLING/asm', e0 is not None and must == set(range(e0)), 'asm|mustwrite|' + short, name,
                    '%s writes %d of the %s bytes of its output object on every path (an unwritten byte keeps stale data: the result '
                    'would differ from the portable code)' % (name, len(must), e0), cfg=ca,
